@@ -862,9 +862,14 @@ impl<Upstream> ValidationContext<Upstream> {
                 return Ok((node, names));
             }
 
-            // Try to find the node in the cache.
+            // Try to find the node in the cache. An intermediate node
+            // (an empty non-terminal or other name within a zone) has no
+            // keys and cannot serve as the signer's node of what lies
+            // below it: keep walking up to the node of the zone itself.
             if let Some(node) = self.cache_lookup(&curr).await {
-                return Ok((node, names));
+                if !node.intermediate() {
+                    return Ok((node, names));
+                }
             }
 
             names.push_front(curr.clone());
